@@ -88,6 +88,23 @@ CHECKS['C04'] = dict(
               'state + loop/object invariants on the real ASTs, z3/cvc5',
     thorough=True)
 
+CHECKS['C11'] = dict(
+    category='proof',
+    text='_read_header is verified on every path: acceptance implies the '
+         'grammar (loop invariant over the option pairs, join lemma), '
+         'rejection implies the line is outside the grammar or its id is not '
+         'allowed (uniqueness and split lemmas), options are reported as the '
+         'fold over the pairs with integer-valued values converted, and no '
+         'exception type other than DiffXParseError can escape. The '
+         'regular-language and split lemmas are separate SMT obligations. '
+         'An exhaustive small-scope enumeration of header lines is the '
+         'labelled bounded stand-in.',
+    design_ref='5/C11',
+    technique='contract-based deductive verification: regex patterns '
+              'translated from the real source, loop invariant + inductive '
+              'lemmas, z3 (regex) / cvc5 (strings)',
+    thorough=True)
+
 NOT_YET = 'check not built yet (work in progress; see DESIGN.md section 5)'
 NA = {}
 
